@@ -78,4 +78,19 @@ LexBackslash(txt, acc) ==
 \* design-level statement: the emitted text is exactly one token with the same value
 EmitOkAnsi(v) == LET r == LexAnsi(Tail(Emit(v)), <<>>) IN r.ok /\ r.v = v /\ r.rest = <<>>
 EmitOkBackslash(v) == LET r == LexBackslash(Tail(Emit(v)), <<>>) IN r.ok /\ r.v = v /\ r.rest = <<>>
+\* ---- the statement printer of the default options (format = true) ----
+\* It tokenises the statement with its own lexer, whatever the dialect, and prints the tokens it found (the text of a token is
+\* copied): a literal is kept iff that lexer finds its end where the emission put it.  Transcribed from the printer
+\* (sqlformat 0.3.5, take_till_escaping('\'', ['\'', '\\'])): a quote or a backslash directly followed by a quote is consumed
+\* together with that quote; any other quote ends the token.  (The first version of this operator took a backslash as
+\* escaping the *next character* - LexBackslash - and the trace refuted it: 'a\\\\' is not kept although the two backslashes
+\* pair up.)
+RECURSIVE LexPrinter(_)
+LexPrinter(txt) ==        \* txt: after the opening quote; result [ok, rest]
+  IF txt = <<>> THEN [ok |-> FALSE, rest |-> <<>>]
+  ELSE IF Head(txt) \in {39, 92} /\ Len(txt) >= 2 /\ txt[2] = 39 THEN LexPrinter(SubSeq(txt, 3, Len(txt)))
+  ELSE IF Head(txt) = 39 THEN [ok |-> TRUE, rest |-> Tail(txt)]
+  ELSE LexPrinter(Tail(txt))
+PrinterKeepsText(txt) == LET r == LexPrinter(Tail(txt)) IN r.ok /\ r.rest = <<>>
+PrinterKeeps(v) == PrinterKeepsText(Emit(v))
 =======================================================================
